@@ -31,6 +31,62 @@ func skipField(typ, path string) bool {
 	return strings.HasPrefix(path, "AbstractPack")
 }
 
+// transientLeaves: the exported fields left out of the comparison (skipField): process-local flags
+// of AbstractStep, the never-written ids of AbstractService, the pack header.  They are inputs all
+// the same — an encoder may look at them — so the generators randomise them (fillTransient) and the
+// replays carry them under their qualified names.
+func transientLeaves(o interface{}, s *spec) []leaf {
+	v := reflect.ValueOf(o)
+	for v.Kind() == reflect.Ptr {
+		v = v.Elem()
+	}
+	var out []leaf
+	var walk func(v reflect.Value, path string, skipped bool)
+	walk = func(v reflect.Value, path string, skipped bool) {
+		t := v.Type()
+		for i := 0; i < t.NumField(); i++ {
+			f := t.Field(i)
+			if !f.IsExported() {
+				continue
+			}
+			p := f.Name
+			if path != "" {
+				p = path + "." + f.Name
+			}
+			fv := v.Field(i)
+			if f.Anonymous && f.Type.Kind() == reflect.Struct {
+				walk(fv, f.Name, skipped || skipField(s.name, f.Name))
+				continue
+			}
+			if fv.Kind() == reflect.Ptr || fv.Kind() == reflect.Struct {
+				continue
+			}
+			if skipped || skipField(s.name, p) {
+				out = append(out, leaf{p, fv})
+			}
+		}
+	}
+	walk(v, "", false)
+	return out
+}
+
+func dumpTransient(o interface{}, s *spec) map[string]string {
+	m := map[string]string{}
+	for _, l := range transientLeaves(o, s) {
+		m[l.name] = leafText(l.v)
+	}
+	return m
+}
+
+// replayRec: the record text of a replay — compared fields and transient ones.
+func replayRec(o interface{}, s *spec) string {
+	m := dump(o, s)
+	for k, v := range dumpTransient(o, s) {
+		m[k] = v
+	}
+	return recText(m)
+}
+
 type leaf struct {
 	name string
 	v    reflect.Value
@@ -308,6 +364,11 @@ func fromRec(s *spec, rec string) interface{} {
 	o := s.mk()
 	m := parseRec(rec)
 	for _, l := range leaves(o, s) {
+		if t, ok := m[l.name]; ok {
+			setLeaf(l.v, t)
+		}
+	}
+	for _, l := range transientLeaves(o, s) {
 		if t, ok := m[l.name]; ok {
 			setLeaf(l.v, t)
 		}
